@@ -257,6 +257,55 @@ type WideParams struct {
 	H1 string ` + "`json:\"X-H1\"`" + `
 	// in: header
 	H2 string ` + "`json:\"X-H2\"`" + `
+	// every keyword of an array parameter in one comment (the scanner applies the matching taggers in the order of a map):
+	// whatever one tagger leaves behind must not change what another one reads
+	//
+	// in: query
+	// collection format: pipes
+	// default: new|featured|sale
+	// example: a|b
+	// min items: 1
+	// max items: 9
+	// unique: true
+	// items.enum: new,featured,sale,a,b
+	// items.min length: 1
+	// items.max length: 12
+	// items.pattern: ^[a-z]+$
+	A1 []string ` + "`json:\"a1\"`" + `
+	// in: query
+	// collection format: ssv
+	// default: 10 20 30
+	// example: 1 2
+	// items.minimum: 1
+	// items.maximum: 99
+	// items.multiple of: 1
+	// items.default: 7
+	// items.example: 8
+	A2 []int32 ` + "`json:\"a2\"`" + `
+	// in: header
+	// collection format: tsv
+	// default: x	y
+	// items.collection format: pipes
+	// items.default: p|q
+	// items.items.enum: p,q,x,y
+	// items.items.default: p
+	A3 [][]string ` + "`json:\"X-A3\"`" + `
+	// in: query
+	// minimum: 1
+	// maximum: 10
+	// multiple of: 1
+	// default: 3
+	// example: 4
+	// enum: 1,2,3,4,5
+	N1 int64 ` + "`json:\"n1\"`" + `
+	// in: query
+	// min length: 2
+	// max length: 8
+	// pattern: ^\w+$
+	// default: ab
+	// example: abc
+	// enum: ab,abc,abcd
+	S1 string ` + "`json:\"s1\"`" + `
 	// in: body
 	Body Wide
 }
@@ -296,6 +345,13 @@ type AResp struct {
 	Body A
 	// in: header
 	Rate int ` + "`json:\"X-Rate\"`" + `
+	// in: header
+	// collection format: pipes
+	// default: 1|2|3
+	// example: 4|5
+	// items.minimum: 1
+	// items.enum: 1,2,3,4,5
+	Steps []int64 ` + "`json:\"X-Steps\"`" + `
 }
 
 // swagger:route GET /a things listA
